@@ -1159,9 +1159,9 @@ func c13InitNonEmpty(in []int64) bool {
 			if n[L] > 0 {
 				return true
 			}
-		case 1, 2, 3, 23, 24:
+		case 1, 2, 3, 12, 13, 23, 24:
 		default:
-			return false // the family below uses pushes, Init and observers only
+			return false // the family below uses pushes, Init, node pushes and observers only
 		}
 	}
 	return false
@@ -1198,6 +1198,14 @@ func c13InitFamily(c *Ctx) {
 						}
 						in = obs(obs(in, 0), 1)
 						cases = append(cases, in)
+						// the handles kept from before the Init are free nodes again: pushed as nodes into the same / the other list
+						in2 := append([]int64{}, in...)
+						in2 = append(in2, 13, 0, 2, 0)
+						if n0 >= 2 {
+							in2 = append(in2, 12, int64(mix%2), 3, 0)
+						}
+						in2 = obs(obs(in2, 0), 1)
+						cases = append(cases, in2)
 					}
 				}
 			}
